@@ -96,7 +96,7 @@ pub fn run(opts: &Opts, which: &'static str) -> i32 {
                 rep.count("panics(info)", 1);
                 rep.observe("panics(info)", &p.signature());
             }
-            Run::Livelock => {
+            Run::Livelock(_tail) => {
                 rep.violation(Violation {
                     signature: format!("{}: live-lock (step budget exhausted)", cfg.role.name()),
                     what: "the system never became quiescent".into(),
